@@ -6,11 +6,12 @@ CHECK = dict(
     level_text='MsgPack: every byte string of length <= 3 (thorough 4) over a 47-symbol alphabet holding every format-code class and length-field boundary, into 12 targets (scalars, string, sequences, byte container, maps, class, '
                'time_point, nested vector, tuple), memory and stream, Throw and Skip policies. CSV/JSON/XML: every string of length <= 5/4/4 (thorough 6/5/5) over their structural alphabets into row/scalar/array/class/map targets. '
                'Converters: every string of length <= 3 (thorough 4) over a 20-symbol numeric/ISO-8601 alphabet into 17 Convert::To targets in char, char16_t and char32_t. Pumping: 11 families with depth/size 2^k, k <= 16 (thorough 20). '
+               'Stream refill boundary: 21 MsgPack item forms (every multi-byte scalar, 8/16/32-bit length fields, timestamps, ext; four of them declare 2113 bytes/elements that are not there) placed at 20 offsets around the end of the 256-byte reader cache inside a 3-element array, cut at every byte or with one byte set to ff/00, into 8 tuple targets (typed and mismatching), memory and stream, both policies. '
                'Every call must return or throw something derived from std::exception, the process must survive (terminate, signals, ASan/UBSan, stack overflow are outcomes), and memory must stay within 64 KiB + 64 x input size '
                'with no single request above 64 MiB.',
     level_note='Coverage-guided / random mutation of long arbitrary inputs belongs to another technique family and is not done. Payload bytes inside strings/binaries are not interpreted by the readers (UTF payloads: C12). '
                'Misaligned loads through reinterpret_cast (msgpack_readers.cpp GetValue, convert_utf.h DetectEncoding/ReadChunk) are undefined behaviour by the letter of the standard but well defined on the x86-64 target; '
                '-fsanitize=alignment is switched off so that it does not mask everything else.',
     rule='execution = one prefix word x one target (the last symbol and the source/policy combinations are looped inside and counted via evals); distinct_nontrivial = distinct well-formed words / distinct inputs per family',
-    assumptions=['inputs longer than the bounds are only covered by the pumping families', 'alignment checking disabled (see level_note)'],
+    assumptions=['inputs longer than the bounds are only covered by the pumping families and the refill-boundary scenario', 'alignment checking disabled (see level_note)'],
 )
